@@ -3,7 +3,7 @@
    proofs in Proofs/NodeProofs.v. The acceptance tolerance and the store window constant come
    from the generated Gen/Consts.v. *)
 From Coq Require Import ZArith List Bool Lia.
-From DV Require Import Model.Time Model.Node Proofs.TimeProofs Proofs.NodeProofs Gen.Consts.
+From DV Require Import Model.Time Model.Node Proofs.TimeProofs Proofs.NodeProofs Proofs.NetTime Gen.Consts.
 Import ListNotations.
 Open Scope Z_scope.
 
@@ -49,6 +49,44 @@ Theorem C04_round_le_current_is_timely : forall now p g r,
   time_of_round time_buffer_bits p g r <= now.
 Proof. intros now p g r. exact (round_le_current_timely time_buffer_bits now p g r eq_refl). Qed.
 Print Assumptions C04_round_le_current_is_timely.
+
+(* System level: with FEWER than a threshold of corrupted or fast-clocked members (the set F), in
+   every reachable state of the abstract network (any schedule of clock advances, adversarial
+   partials for any round at any time, honest partials signed under the node-local rule proved
+   above, and Recover events that need partials of t distinct members) no beacon of a future
+   round exists anywhere and no honest accurately-clocked member has signed a round before its
+   time.  In particular no honest head is ever ahead of the clock, which is the premise of
+   C04_emissions_not_early_partial.  The honest rule of this network (NHonest) is literally the
+   disjunction that theorem gives: the signed round is at most the current round, unless the
+   stored head (a beacon that exists) is ahead of the clock.  cr is any monotone current-round
+   function (C16 gives monotonicity of the real one: current_round_mono). *)
+Theorem C04_net_no_future_round : forall (cr : Z -> Z) (F : list Z) (t : Z),
+  (forall a b, a <= b -> cr a <= cr b) -> Z.of_nat (length F) < t ->
+  forall s s', inv cr F s -> reach cr F t s s' -> inv cr F s'.
+Proof. intros cr F t Hm Hf s s'. exact (no_future_beacon cr Hm F t Hf s s'). Qed.
+Print Assumptions C04_net_no_future_round.
+
+Definition nv_cr (T : Z) := T / 4 + 1.
+Definition nv0 := mkNet 0 [] [].
+Definition nv1 := mkNet 0 [(7, 9)] [].
+Definition nv2 := mkNet 4 [(7, 9)] [].
+Definition nv3 := mkNet 4 [(7, 2); (7, 9)] [].
+Definition nv4 := mkNet 4 [(1, 2); (7, 2); (7, 9)] [].
+Definition nv5 := mkNet 4 [(1, 2); (7, 2); (7, 9)] [2].
+Example C04_net_nonvacuous : inv nv_cr [7] nv0 /\ reach nv_cr [7] 2 nv0 nv5.
+Proof.
+  split; [split; intros; contradiction|].
+  apply (RStep _ _ _ nv0 nv4 nv5); [apply (RStep _ _ _ nv0 nv3 nv4); [apply (RStep _ _ _ nv0 nv2 nv3);
+    [apply (RStep _ _ _ nv0 nv1 nv2); [apply (RStep _ _ _ nv0 nv0 nv1); [apply RRefl|]|]|]|]|].
+  - apply (NCorrupt _ _ _ nv0 7 9). left; reflexivity.
+  - apply (NAdvance _ _ _ nv1 4). lia.
+  - apply (NCorrupt _ _ _ nv2 7 2). left; reflexivity.
+  - apply (NHonest _ _ _ nv3 1 2); [intros [E|[]]; discriminate|left; vm_compute; discriminate].
+  - apply (NRecover _ _ 2 nv4 2 [1; 7]).
+    + constructor; [intros [E|[]]; discriminate|constructor; [intros []|constructor]].
+    + simpl. lia.
+    + intros i [<-|[<-|[]]]; simpl; auto.
+Qed.
 
 (* Without ANY assumption on the other members the first sentence of the property does not hold
    of the faithful model: if a threshold of OTHER members sign round cur+1 while the node's own
